@@ -289,7 +289,7 @@ def parse_youtube_url(url, fix_common_mistakes=True):
     # youtu.be
     if parsed.hostname and parsed.hostname.endswith("youtu.be"):
 
-        if path.strip("/"):
+        if pathsplit(path):
             v = pathsplit(path)[0]
 
             if fix_common_mistakes:
